@@ -57,6 +57,9 @@ func (t *TxnOffsetCommitResponse) decode(pd packetDecoder, version int16) (err e
 			return err
 		}
 
+		if m < 0 {
+			return errInvalidArrayLength
+		}
 		t.Topics[topic] = make([]*PartitionError, m)
 
 		for j := 0; j < m; j++ {
